@@ -16,6 +16,9 @@ def dispatch(prop, tier, seed):
     if prop in TM_PROPS:
         from . import checks_tm
         return checks_tm.check(prop, tier, seed)
+    if prop == "C09":
+        from . import eng_tee
+        return eng_tee.check(prop, tier, seed)
     raise MachineryError(f"no check registered for {prop}")
 
 
